@@ -249,7 +249,7 @@ class BaseAllFixedSizeElementLocator
     void make_room_for_last_element_at(std::size_t from, std::size_t size_of_element,
                                        std::byte* memory_begin) const noexcept
     {
-        const auto source = element_address(from, {});
+        const auto source = element_address(from, memory_begin);
         const auto target = source + size_of_element;
         const auto count = static_cast<std::size_t>(data_end(memory_begin) - source);
         std::memmove(target, source, count);
